@@ -1,879 +1,22 @@
 /-
 C16 - constraint transforms land in their target set and leave conforming input alone.
-Property theorems only (helper lemmas live in Proofs/Transforms.lean).
+Property theorems only (helper lemmas live in Proofs/Transforms.lean, Proofs/TransformsExt.lean).
 
-For every transform `T` of Model/Transforms.lean (the code as it is) the four statements
-  in_target   : a selected entry of `T x` is in the target set
-  frame       : an unselected entry of `T x` is the entry of `x`
-  fix_conform : if every selected entry of `x` is in the target set then `T x = x`
-  idem        : `T (T x) = T x`
-over an arbitrary linear order / linearly ordered field `K`, all inputs, all lengths, all index selections.
-Where the code as it is violates a clause the negation is proved on a concrete witness (`..._witness`)
-and the strongest true variant is kept (`..._partial`).
+The theorems are split over the files of `Props/C16/` (all in namespace `MysticVerif.C16`; the harness lists every
+`theorem` of this file and of `Props/C16/*.lean`):
+  Core    - the masked element map, index selection, clipping, impose_bounds (one / several intervals), discrete
+            (member, fix-conform, idempotent), integers / rounded (nearest integer, grid), suppressed, impose_at (scalar),
+            partial, sorting / monotonic (whole vector; frame under an index), with_mean, normalized, unique, and the
+            closed-term witnesses of the places where the code breaks a clause
+  Insert  - impose_at with a LIST target (pinned, last-write-wins, frame, idempotent, the shape error), masked /
+            insert_missing (KeyError guard, value at its key, the rest is the input in order), synchronized
+  Ties    - discrete: NEAREST sample, the lower one on a tie; integers / rounded / precision: half to EVEN
+  Stats   - with_spread / with_variance / with_std: exact target, mean kept, degenerate inputs, idempotent
+  Select  - sorting / monotonic under an index selection (the selected subsequence), bounded(clip=True, nearest=False)
+            lands on an interval end, bounded(clip=False) lands inside for every draw oracle
 -/
-import MysticVerif.Proofs.Transforms
-
-namespace MysticVerif.C16
-open MysticVerif.Trans
-
-variable {R : Type}
-
-/-! ## the masked element map: `choose(mask, (x, map g x))`
-(discrete, integers, rounded, precision, bounded, clipped, suppressed are instances) -/
-
-theorem maskMap_length (g : R → R) (sel : Nat → Bool) (x : List R) :
-    (maskMap g sel x).length = x.length := by simp [maskMap]
-
-/-- **in target**: a selected entry of the result is `g` of the input entry, hence in any set `g` maps into -/
-theorem maskMap_in_target (P : R → Prop) (g : R → R) (hg : ∀ a, P (g a)) (sel : Nat → Bool) (x : List R)
-    (k : Nat) (b : R) (hk : sel k = true) (hb : (maskMap g sel x)[k]? = some b) : P b := by
-  rw [maskMap_getElem?] at hb
-  cases hx : x[k]? with
-  | none => simp [hx] at hb
-  | some a => simp [hx, hk] at hb; subst hb; exact hg a
-
-/-- **frame**: an unselected entry is untouched -/
-theorem maskMap_frame (g : R → R) (sel : Nat → Bool) (x : List R) (k : Nat) (hk : sel k = false) :
-    (maskMap g sel x)[k]? = x[k]? := by
-  rw [maskMap_getElem?]
-  cases hx : x[k]? with
-  | none => simp
-  | some a => simp [hk]
-
-/-- **conforming input is left alone** -/
-theorem maskMap_fix_conform (P : R → Prop) (g : R → R) (hfix : ∀ a, P a → g a = a) (sel : Nat → Bool)
-    (x : List R) (hx : ∀ k a, sel k = true → x[k]? = some a → P a) : maskMap g sel x = x := by
-  apply List.ext_getElem?
-  intro k
-  rw [maskMap_getElem?]
-  cases hk : x[k]? with
-  | none => simp
-  | some a =>
-    by_cases hs : sel k = true
-    · simp [hs, hfix a (hx k a hs hk)]
-    · simp [hs]
-
-/-- **idempotent** whenever the element map is -/
-theorem maskMap_idem (g : R → R) (hg : ∀ a, g (g a) = g a) (sel : Nat → Bool) (x : List R) :
-    maskMap g sel (maskMap g sel x) = maskMap g sel x := by
-  apply List.ext_getElem?
-  intro k
-  rw [maskMap_getElem?, maskMap_getElem?]
-  cases hk : x[k]? with
-  | none => simp
-  | some a =>
-    by_cases hs : sel k = true
-    · simp [hs, hg]
-    · simp [hs]
-
-/-! ## index selection (`mask[sorted(index, key=abs)] = True` under `try/except IndexError`) -/
-
-/-- ONE out-of-range index empties the whole selection -/
-theorem selMask_out_of_range_empty (n : Nat) (is : List Int) (i : Int) (hi : i ∈ is)
-    (hoor : (n : Int) ≤ i ∨ i < -(n : Int)) (k : Nat) : selMask n (some is) k = false := by
-  have : wrapAll n is = none := wrapAll_none_of_mem n is i hi (wrapIdx_none n i hoor)
-  simp [selMask, this]
-
-/-- negative indices wrap: with every index in range, position `k` is selected iff `k` or `k - n` is listed -/
-theorem selMask_wraps_negative (n : Nat) (is : List Int) (hin : ∀ i ∈ is, -(n : Int) ≤ i ∧ i < n) (k : Nat)
-    (hk : k < n) : selMask n (some is) k = true ↔ ((k : Int) ∈ is ∨ (k : Int) - n ∈ is) := by
-  obtain ⟨ks, hks, hmem⟩ := wrapAll_some n is hin
-  simp only [selMask, hks, List.contains_iff_mem]
-  rw [hmem k hk]
-
-theorem selMask_none (n k : Nat) : selMask n none k = true := rfl
-
-/-! ## clipping: `numpy.clip`, `tools.clipped`, one-interval `impose_bounds(clip=True)` -/
-
-section order
-variable {K : Type} [LinearOrder K]
-
-/-- the clipped value is inside the interval -/
-theorem clipAt_in_target (lo hi a : K) (h : lo ≤ hi) : lo ≤ clipAt lo hi a ∧ clipAt lo hi a ≤ hi := by
-  unfold clipAt; simp only
-  split <;> split <;> constructor <;> order
-
-/-- ... and it is an interval END whenever the input was outside -/
-theorem clipAt_at_end (lo hi a : K) (_h : lo ≤ hi) (hout : ¬ (lo ≤ a ∧ a ≤ hi)) :
-    clipAt lo hi a = lo ∨ clipAt lo hi a = hi := by
-  unfold clipAt; simp only
-  split
-  · split
-    · right; rfl
-    · left; rfl
-  · split
-    · right; rfl
-    · rename_i h1 h2
-      exfalso; apply hout; constructor <;> order
-
-/-- an input inside the interval is left alone -/
-theorem clipAt_fix (lo hi a : K) (hin : lo ≤ a ∧ a ≤ hi) : clipAt lo hi a = a := by
-  unfold clipAt; simp only
-  obtain ⟨h1, h2⟩ := hin
-  split <;> split <;> order
-
-theorem clipAt_idem (lo hi a : K) (h : lo ≤ hi) : clipAt lo hi (clipAt lo hi a) = clipAt lo hi a :=
-  clipAt_fix lo hi _ (clipAt_in_target lo hi a h)
-
-/-- `tools.clipped(lo, hi)`: EVERY entry lands in `[lo, hi]` (a `None` bound is no bound) -/
-theorem clipped_in_target (lo hi : K) (h : lo ≤ hi) (x : List K) (b : K) (hb : b ∈ clipped (some lo) (some hi) x) :
-    lo ≤ b ∧ b ≤ hi := by
-  simp only [clipped, List.mem_map] at hb
-  obtain ⟨a, _, rfl⟩ := hb
-  rw [clipOpt_some]; exact clipAt_in_target lo hi a h
-
-/-- entries already inside are left alone, hence applying it twice equals applying it once -/
-theorem clipped_fix_conform (lo hi : K) (x : List K) (hx : ∀ a ∈ x, lo ≤ a ∧ a ≤ hi) :
-    clipped (some lo) (some hi) x = x := by
-  unfold clipped
-  conv => rhs; rw [← List.map_id x]
-  apply List.map_congr_left
-  intro a ha
-  rw [clipOpt_some]; exact clipAt_fix lo hi a (hx a ha)
-
-theorem clipped_idem (lo hi : K) (h : lo ≤ hi) (x : List K) :
-    clipped (some lo) (some hi) (clipped (some lo) (some hi) x) = clipped (some lo) (some hi) x :=
-  clipped_fix_conform lo hi _ (fun b hb => clipped_in_target lo hi h x b hb)
-
-end order
-
-/-! ## `tools.suppressed(tol)` (clip=True): exactly the entries with `|a| < tol` are zeroed -/
-
-section field
-variable {K : Type} [Field K] [LinearOrder K] [IsStrictOrderedRing K]
-
-/-- entry `k` of the result is `0` if `|x[k]| < tol` and `x[k]` otherwise -/
-theorem suppress_zeroes_exactly (tol : K) (x : List K) (k : Nat) :
-    (suppress tol x)[k]? = (x[k]?).map (fun a => if |a| < tol then 0 else a) := by
-  simp [suppress, absR_eq_abs]
-
-theorem suppress_idem (tol : K) (x : List K) : suppress tol (suppress tol x) = suppress tol x := by
-  simp only [suppress, List.map_map]
-  apply List.map_congr_left
-  intro a _
-  simp only [Function.comp]
-  by_cases h : absR a < tol
-  · simp only [h, if_true]; split <;> rfl
-  · simp [h]
-
-end field
-
-/-! ## `impose_at(index, target)` with a scalar target -/
-
-/-- the slots `impose_at` writes: `[i for i in index if i < len(x)]`, negative ones wrapped -/
-theorem imposeAt_scalar_eq (index : List Int) (t : R) (x : List R) (ks : List Nat)
-    (hks : wrapAll x.length (index.filter (fun i => i < Int.ofNat x.length)) = some ks) :
-    imposeAt index (.inl t) x = .ok (scatter ks (List.replicate ks.length t) x) := by
-  have hlen : ks.length = (index.filter (fun i => i < Int.ofNat x.length)).length := (wrapAll_length _ _ _ hks).symm
-  simp only [imposeAt, hks, hlen]
-
-/-- **pinned**: every addressed entry holds the target -/
-theorem imposeAt_pinned (index : List Int) (t : R) (x y : List R) (ks : List Nat)
-    (hks : wrapAll x.length (index.filter (fun i => i < Int.ofNat x.length)) = some ks)
-    (hy : imposeAt index (.inl t) x = .ok y) (k : Nat) (hk : k ∈ ks) : y[k]? = some t := by
-  rw [imposeAt_scalar_eq index t x ks hks] at hy
-  injection hy with hy; subst hy
-  exact scatter_replicate_mem ks t x k hk (wrapAll_lt _ _ _ hks k hk)
-
-/-- **frame**: every other entry is untouched -/
-theorem imposeAt_frame (index : List Int) (t : R) (x y : List R) (ks : List Nat)
-    (hks : wrapAll x.length (index.filter (fun i => i < Int.ofNat x.length)) = some ks)
-    (hy : imposeAt index (.inl t) x = .ok y) (k : Nat) (hk : k ∉ ks) : y[k]? = x[k]? := by
-  rw [imposeAt_scalar_eq index t x ks hks] at hy
-  injection hy with hy; subst hy
-  exact scatter_not_mem ks _ x k hk
-
-/-- **idempotent** -/
-theorem imposeAt_idem (index : List Int) (t : R) (x y : List R)
-    (hy : imposeAt index (.inl t) x = .ok y) : imposeAt index (.inl t) y = .ok y := by
-  cases hks : wrapAll x.length (index.filter (fun i => i < Int.ofNat x.length)) with
-  | none => simp only [imposeAt, hks] at hy; cases hy
-  | some ks =>
-    have hy' := hy
-    rw [imposeAt_scalar_eq index t x ks hks] at hy'
-    injection hy' with hy'
-    have hlen : y.length = x.length := by rw [← hy', scatter_length]
-    have hks' : wrapAll y.length (index.filter (fun i => i < Int.ofNat y.length)) = some ks := by rw [hlen]; exact hks
-    rw [imposeAt_scalar_eq index t y ks hks']
-    congr 1
-    apply List.ext_getElem?
-    intro k
-    by_cases hk : k ∈ ks
-    · rw [scatter_replicate_mem ks t y k hk (by rw [hlen]; exact wrapAll_lt _ _ _ hks k hk)]
-      exact (imposeAt_pinned index t x y ks hks hy k hk).symm
-    · exact scatter_not_mem ks _ y k hk
-
-/-! ## `tools.partial(mask)` -/
-
-/-- **pinned**: an addressed entry holds the (last) value the mask gives it -/
-theorem partialMask_pinned (mask : List (Int × R)) (x : List R) (k : Nat) (v : R) (hk : k < x.length)
-    (hv : lastWrite x.length mask k = some v) : (partialMask mask x)[k]? = some v := by
-  rw [partialMask_getElem?, List.getElem?_eq_getElem hk]; simp [hv]
-
-/-- **frame**: an entry no mask key addresses is untouched -/
-theorem partialMask_frame (mask : List (Int × R)) (x : List R) (k : Nat)
-    (hv : lastWrite x.length mask k = none) : (partialMask mask x)[k]? = x[k]? := by
-  rw [partialMask_getElem?]
-  cases x[k]? <;> simp [hv]
-
-theorem partialMask_idem (mask : List (Int × R)) (x : List R) :
-    partialMask mask (partialMask mask x) = partialMask mask x := by
-  apply List.ext_getElem?
-  intro k
-  rw [partialMask_getElem?, partialMask_getElem?, partialMask_length]
-  cases x[k]? with
-  | none => rfl
-  | some a => cases lastWrite x.length mask k <;> simp
-
-/-! ## `impose_bounds((lo, hi), index)` / `bounded(x, (lo, hi), index)` with `clip=True` (one interval) -/
-
-section bounds
-variable {K : Type} [Field K] [LinearOrder K] [IsStrictOrderedRing K]
-
-/-- with one interval the whole transform of an entry is `numpy.clip` -/
-theorem boundedAt_single (lo hi a : K) : boundedAt [(lo, hi)] a = clipAt lo hi a := by
-  unfold boundedAt
-  split
-  · rename_i h
-    simp [inAny] at h
-    exact (clipAt_fix lo hi a h).symm
-  · simp [clipNear, argminFirst, argminGo]
-
-/-- **in target**: a selected entry lands in `[lo, hi]` -/
-theorem bounded_in_target (lo hi : K) (h : lo ≤ hi) (idx : Option (List Int)) (x : List K) (k : Nat) (b : K)
-    (hk : selPos idx k = true) (hb : (bounded [(lo, hi)] idx x)[k]? = some b) : lo ≤ b ∧ b ≤ hi := by
-  simp only [bounded, List.isEmpty_cons, Bool.false_eq_true, if_false] at hb
-  exact maskMap_in_target (fun b => lo ≤ b ∧ b ≤ hi) (boundedAt [(lo, hi)])
-    (fun a => by rw [boundedAt_single]; exact clipAt_in_target lo hi a h) (selPos idx) x k b hk hb
-
-/-- ... at an interval END whenever it was outside -/
-theorem bounded_at_end (lo hi : K) (h : lo ≤ hi) (idx : Option (List Int)) (x : List K) (k : Nat) (a b : K)
-    (hk : selPos idx k = true) (ha : x[k]? = some a) (hout : ¬ (lo ≤ a ∧ a ≤ hi))
-    (hb : (bounded [(lo, hi)] idx x)[k]? = some b) : b = lo ∨ b = hi := by
-  simp only [bounded, List.isEmpty_cons, Bool.false_eq_true, if_false] at hb
-  rw [maskMap_getElem?, ha] at hb
-  simp [hk, boundedAt_single] at hb
-  subst hb
-  exact clipAt_at_end lo hi a h hout
-
-/-- **frame**: an unselected entry is untouched -/
-theorem bounded_frame (ivs : List (K × K)) (idx : Option (List Int)) (x : List K) (k : Nat)
-    (hk : selPos idx k = false) : (bounded ivs idx x)[k]? = x[k]? := by
-  unfold bounded
-  split
-  · rfl
-  · exact maskMap_frame _ _ x k hk
-
-/-- **conforming input is left alone** (any number of intervals) -/
-theorem bounded_fix_conform (ivs : List (K × K)) (idx : Option (List Int)) (x : List K)
-    (hx : ∀ k a, selPos idx k = true → x[k]? = some a → inAny ivs a = true) : bounded ivs idx x = x := by
-  unfold bounded
-  split
-  · rfl
-  · exact maskMap_fix_conform (fun a => inAny ivs a = true) (boundedAt ivs)
-      (fun a ha => by simp [boundedAt, ha]) (selPos idx) x hx
-
-/-- **idempotent** -/
-theorem bounded_idem (lo hi : K) (h : lo ≤ hi) (idx : Option (List Int)) (x : List K) :
-    bounded [(lo, hi)] idx (bounded [(lo, hi)] idx x) = bounded [(lo, hi)] idx x := by
-  simp only [bounded, List.isEmpty_cons, Bool.false_eq_true, if_false]
-  exact maskMap_idem _ (fun a => by rw [boundedAt_single, boundedAt_single]; exact clipAt_idem lo hi a h) _ x
-
-end bounds
-
-/-- the selection of `bounded` is by position NUMBER: a negative index selects nothing, although the mask family
-(discrete, integers, rounded) selects the last entry for `-1`.  `impose_bounds((0,5), index=(-1,))([1, 7])`
-leaves `7` outside the bounds. -/
-theorem bounded_negative_index_ignored_witness :
-    bounded [((0 : Int), 5)] (some [-1]) [1, 7] = [1, 7] ∧ selMask 2 (some [-1]) 1 = true ∧ selPos (some [-1]) 1 = false := by
-  decide
-
-/-! ## closed-term witnesses of the other places where the code as it is breaks a clause -/
-
-/-- `impose_at([1,3,4,5,7], [0,2,4,6,8])` on a length-4 input: the docstring promises `[1,0,1,2]`, numpy raises -/
-theorem imposeAt_list_target_raises_witness :
-    imposeAt [1, 3, 4, 5, 7] (.inr [(0 : Int), 2, 4, 6, 8]) [1, 1, 1, 1] = .error .value := by rfl
-
-/-- `impose_as([(2,3),(0,1),(1,2)])([0,1,2,3])`: `connected` never merges the groups `{2,3}` and `{0,1}`, the pair
-`(1,2)` stays untied (`x[1] = 0`, `x[2] = 2`) -/
-theorem imposeAs_pair_not_tied_witness :
-    imposeAs [(2, 3), (0, 1), (1, 2)] (0 : Int) [0, 1, 2, 3] = .ok [0, 0, 2, 2]
-      ∧ connected [(2, 3), (0, 1), (1, 2)] = [(2, [3, 1]), (0, [1])] := by
-  constructor <;> rfl
-
-/-- `impose_as([(3,4),(2,3),(0,2)])([0,1,2])`: the group root `3` is out of range, so nothing is tied although the
-pair `(0,2)` is entirely in range -/
-theorem imposeAs_out_of_range_root_witness :
-    imposeAs [(3, 4), (2, 3), (0, 2)] (0 : Int) [0, 1, 2] = .ok [0, 1, 2] := by rfl
-
-/-- `impose_as([(0,1),(1,0)])`: the `while pairs:` loop never shrinks - for EVERY amount of fuel the model is
-still inside the loop (the code does not terminate) -/
-theorem imposeAs_cyclic_mask_hangs_witness (fuel : Nat) :
-    offsetLoop (0 : Int) fuel [(0, 1), (1, 0)] [1, 2] = .error .hang := by
-  induction fuel with
-  | zero => rfl
-  | succ n ih =>
-    have : offsetLoop (0 : Int) (n + 1) [(0, 1), (1, 0)] [1, 2] = offsetLoop (0 : Int) n [(0, 1), (1, 0)] [1, 2] := by
-      rfl
-    rw [this]; exact ih
-
-/-- `synchronized({0:(1,2)})`: a list gets `x[0] = 2*x[1]`, an ndarray is returned unchanged -/
-theorem synchronized_array_scaled_ignored_witness :
-    synchronized false [(0, Track.scaled 1 (2 : Int))] [1, 2, 3] = [4, 2, 3]
-      ∧ synchronized true [(0, Track.scaled 1 (2 : Int))] [1, 2, 3] = [1, 2, 3] := by
-  decide
-
-/-! ## `sorting` / `monotonic` (whole vector, `index=None`) -/
-
-section sorting
-variable {K : Type} [LinearOrder K]
-
-/-- **in target**: the result is in order (ascending, or descending for `ascending=False`) -/
-theorem sorting_sorted (asc : Bool) (x : List K) : Ordered asc (sortBy asc x) := sortBy_ordered asc x
-
-/-- ... and is a rearrangement of the input -/
-theorem sorting_perm (asc : Bool) (x : List K) : (sortBy asc x).Perm x := sortBy_perm asc x
-
-/-- **conforming input is left alone** -/
-theorem sorting_fix_conform (asc : Bool) (x : List K) (h : Ordered asc x) : sortBy asc x = x :=
-  sortBy_fix asc x h
-
-/-- **idempotent** -/
-theorem sorting_idem (asc : Bool) (x : List K) : sortBy asc (sortBy asc x) = sortBy asc x :=
-  sortBy_fix asc _ (sortBy_ordered asc x)
-
-/-- `sorting(index=None)` is exactly that sort -/
-theorem sorting_none (asc : Bool) (x : List K) : sorting asc none x = .ok (sortBy asc x) := rfl
-
-/-- **in target**: the running maximum (minimum) is monotone -/
-theorem monotonic_monotone (asc : Bool) (x : List K) : Ordered asc (accum asc x) := accum_ordered asc x
-
-/-- every entry moves only upwards (ascending) / downwards (descending), the first one not at all -/
-theorem monotonic_dominates (asc : Bool) (x : List K) (k : Nat) (a b : K) (ha : x[k]? = some a)
-    (hb : (accum asc x)[k]? = some b) : if asc = true then a ≤ b else b ≤ a := accum_dominates asc x k a b ha hb
-
-/-- **conforming input is left alone** -/
-theorem monotonic_fix_conform (asc : Bool) (x : List K) (h : Ordered asc x) : accum asc x = x :=
-  accum_fix asc x h
-
-/-- **idempotent** -/
-theorem monotonic_idem (asc : Bool) (x : List K) : accum asc (accum asc x) = accum asc x :=
-  accum_fix asc _ (accum_ordered asc x)
-
-theorem monotonic_none (asc : Bool) (x : List K) : monotonic asc none x = .ok (accum asc x) := rfl
-
-end sorting
-
-/-! ## statistics: `with_mean(target)`, `normalized(mass)`
-`sum` is the mathematical sum (`List.sum`), `ofNat` the cast: the order of a floating-point summation is outside
-the theorems.  `close` is `numpy.allclose`: `|a - b| ≤ atol + rtol*|b|`. -/
-
-section stats
-variable {K : Type} [Field K] [LinearOrder K] [IsStrictOrderedRing K]
-
-/-- **in target**: either the guard `almostEqual(mean(x), target)` held and `x` is returned, or the result has
-EXACTLY the target mean -/
-theorem withMean_in_target (atol rtol target : K) (x y : List K)
-    (hy : withMean List.sum Nat.cast atol rtol target x = .ok y) :
-    (y = x ∧ close atol rtol (meanL List.sum Nat.cast x) target = true) ∨ meanL List.sum Nat.cast y = target := by
-  unfold withMean at hy
-  split at hy
-  · cases hy
-  · rename_i hne
-    split at hy
-    · rename_i hc
-      left; injection hy with hy; exact ⟨hy.symm, hc⟩
-    · right; injection hy with hy; subst hy
-      exact mean_imposeMean target x (by simpa using hne)
-
-/-- **idempotent** (for non-negative tolerances, as in the code: `tol=1e-18, rel=1e-7`) -/
-theorem withMean_idem (atol rtol target : K) (h0 : 0 ≤ atol) (h1 : 0 ≤ rtol) (x y : List K)
-    (hy : withMean List.sum Nat.cast atol rtol target x = .ok y) :
-    withMean List.sum Nat.cast atol rtol target y = .ok y := by
-  rcases withMean_in_target atol rtol target x y hy with ⟨rfl, _⟩ | hm
-  · exact hy
-  · have hne : y.isEmpty = false := by
-      unfold withMean at hy
-      split at hy
-      · cases hy
-      · rename_i hx
-        split at hy
-        · injection hy with hy; subst hy; simpa using hx
-        · injection hy with hy; subst hy; simpa [imposeMean] using hx
-    unfold withMean
-    rw [if_neg (by simp [hne]), hm, if_pos (close_self atol rtol target h0 h1)]
-
-/-- **in target**: for an input whose sum is not zero, either the guard held and `x` is returned, or the result
-sums EXACTLY to `mass` -/
-theorem normalized_in_target (atol rtol mass : K) (x : List K) (hs : x.sum ≠ 0) :
-    (normalized List.sum atol rtol mass x = x ∧ close atol rtol x.sum mass = true)
-      ∨ (normalized List.sum atol rtol mass x).sum = mass := by
-  unfold normalized
-  split
-  · rename_i hc; left; exact ⟨rfl, hc⟩
-  · right
-    have hw : (x.map absR).sum ≠ 0 := sum_abs_ne_zero x hs
-    simp only
-    rw [if_neg (by rw [eqR_iff]; exact hw)]
-    have hm : (x.map (· / (x.map absR).sum)).sum = x.sum / (x.map absR).sum := sum_map_div x _
-    have hm0 : (x.map (· / (x.map absR).sum)).sum ≠ 0 := by rw [hm]; exact div_ne_zero hs hw
-    rw [if_neg (by rw [eqR_iff]; exact hm0)]
-    rw [sum_map_mul_div]
-    field_simp
-
-/-- **idempotent** (non-degenerate input, non-negative tolerances) -/
-theorem normalized_idem (atol rtol mass : K) (h0 : 0 ≤ atol) (h1 : 0 ≤ rtol) (x : List K) (hs : x.sum ≠ 0) :
-    normalized List.sum atol rtol mass (normalized List.sum atol rtol mass x) = normalized List.sum atol rtol mass x := by
-  rcases normalized_in_target atol rtol mass x hs with ⟨he, _⟩ | hm
-  · rw [he, he]
-  · generalize normalized List.sum atol rtol mass x = y at hm ⊢
-    unfold normalized
-    rw [hm, if_pos (close_self atol rtol mass h0 h1)]
-
-end stats
-
-/-! ## `integers` : round-half-even built from `floor` (numpy `rint`) -/
-
-section rint
-variable {K : Type} [Field K] [LinearOrder K] [IsStrictOrderedRing K]
-
-/-- the contract of the `floor` operation the model is given -/
-def IsFloor (floor : K → K) : Prop := ∀ a, ∃ n : ℤ, floor a = (n : K) ∧ (n : K) ≤ a ∧ a < (n : K) + 1
-
-/-- **in target**: the result is an integer and no other integer is nearer (`|a - r| ≤ 1/2`) -/
-theorem rintHE_nearest_integer (floor : K → K) (hf : IsFloor floor) (a : K) :
-    ∃ n : ℤ, rintHE floor a = (n : K) ∧ |a - (n : K)| ≤ 1 / 2 := by
-  obtain ⟨n, hn, h1, h2⟩ := hf a
-  unfold rintHE
-  simp only [hn]
-  split
-  · rename_i hd
-    exact ⟨n, rfl, abs_le.mpr ⟨by linarith, by linarith⟩⟩
-  · rename_i hd
-    split
-    · rename_i hd2
-      exact ⟨n + 1, by push_cast; rfl, abs_le.mpr ⟨by push_cast; linarith, by push_cast; linarith⟩⟩
-    · rename_i hd2
-      have hd' : a - (n : K) = 1 / 2 := le_antisymm (not_lt.mp hd2) (not_lt.mp hd)
-      split
-      · exact ⟨n, rfl, abs_le.mpr ⟨by linarith, by linarith⟩⟩
-      · exact ⟨n + 1, by push_cast; rfl, abs_le.mpr ⟨by push_cast; linarith, by push_cast; linarith⟩⟩
-
-/-- **conforming input is left alone**: an integer is its own rounding -/
-theorem rintHE_fix_integer (floor : K → K) (hf : IsFloor floor) (m : ℤ) : rintHE floor (m : K) = (m : K) := by
-  obtain ⟨n, hn, h1, h2⟩ := hf (m : K)
-  have hnm : n = m := by
-    have a1 : n ≤ m := by exact_mod_cast h1
-    have a2 : m < n + 1 := by exact_mod_cast h2
-    omega
-  subst hnm
-  unfold rintHE
-  simp only [hn]
-  rw [if_pos]
-  simp
-
-theorem rintHE_idem (floor : K → K) (hf : IsFloor floor) (a : K) :
-    rintHE floor (rintHE floor a) = rintHE floor a := by
-  obtain ⟨n, hn, _⟩ := rintHE_nearest_integer floor hf a
-  rw [hn]; exact rintHE_fix_integer floor hf n
-
-/-- **in target** for `integers(ints=float, index)`: every selected entry becomes a nearest integer -/
-theorem integers_in_target (floor : K → K) (hf : IsFloor floor) (idx : Option (List Int)) (x : List K)
-    (k : Nat) (a b : K) (hk : selMask x.length idx k = true) (ha : x[k]? = some a)
-    (hb : (integers (rintHE floor) id idx x)[k]? = some b) : ∃ n : ℤ, b = (n : K) ∧ |a - (n : K)| ≤ 1 / 2 := by
-  simp only [integers, List.map_id] at hb
-  rw [maskMap_getElem?, ha] at hb
-  simp [hk] at hb
-  obtain ⟨n, hn, hd⟩ := rintHE_nearest_integer floor hf a
-  exact ⟨n, by rw [← hb, hn], hd⟩
-
-/-- **frame**, the part that is true: with `ints=float` (no cast) unselected entries are untouched.
-The full clause - also for `ints=True` - is FALSE for the code as it is, see `integers_frame_fails_witness`. -/
-theorem integers_frame_partial (rint : K → K) (idx : Option (List Int)) (x : List K) (k : Nat)
-    (hk : selMask x.length idx k = false) : (integers rint id idx x)[k]? = x[k]? := by
-  simp only [integers, List.map_id]
-  exact maskMap_frame rint _ x k hk
-
-theorem integers_idem (floor : K → K) (hf : IsFloor floor) (idx : Option (List Int)) (x : List K) :
-    integers (rintHE floor) id idx (integers (rintHE floor) id idx x) = integers (rintHE floor) id idx x := by
-  simp only [integers, List.map_id, maskMap_length]
-  exact maskMap_idem _ (rintHE_idem floor hf) _ x
-
-end rint
-
-/-- F14: `integers(ints=True, index=(0,-1))([0.6, 1.6, 2.5])` is `[1, 1, 2]`: entry 1 is NOT selected and yet
-`1.6` became `1` (the `astype(int)` cast hits every entry).  Here over ℚ with the true floor / truncation. -/
-theorem integers_frame_fails_witness :
-    integers (rintHE (fun q : ℚ => ((Int.floor q : ℤ) : ℚ)))
-        (fun q : ℚ => if q < 0 then ((Int.ceil q : ℤ) : ℚ) else ((Int.floor q : ℤ) : ℚ))
-        (some [0, -1]) [3 / 5, 8 / 5, 5 / 2] = [1, 1, 2]
-      ∧ selMask 3 (some [0, -1]) 1 = false := by
-  constructor
-  · simp only [integers, maskMap, rintHE, eqR, selMask, wrapAll, wrapIdx, List.mapIdx_cons, List.mapIdx_nil, List.length_cons,
-      List.length_nil, List.map_cons, List.map_nil]
-    norm_num
-  · decide
-
-/-! ## `discrete(samples, index)` -/
-
-section discrete
-variable {K : Type} [Field K] [LinearOrder K] [IsStrictOrderedRing K]
-
-/-- **in target**: the value chosen for an entry is a member of the sample set -/
-theorem nearS_mem (s : List K) (hs : s ≠ []) (xi : K) : nearS s xi ∈ s := by
-  have hc : countLt s xi ≤ s.length := List.length_filter_le _ _
-  have hpos : 0 < s.length := List.length_pos_iff.mpr hs
-  have hlo : countLt s xi - 1 < s.length := by
-    rcases Nat.eq_zero_or_pos (countLt s xi) with h | h
-    · rw [h]; exact hpos
-    · exact Nat.lt_of_lt_of_le (Nat.sub_lt h Nat.one_pos) hc
-  have hhi : (if countLt s xi = s.length then countLt s xi - 1 else countLt s xi) < s.length := by
-    split
-    · exact hlo
-    · exact Nat.lt_of_le_of_ne hc ‹_›
-  have hmem : ∀ i, i < s.length → s[i]?.getD xi ∈ s := by
-    intro i hi; rw [List.getElem?_eq_getElem hi]; simp
-  have hnear : ∀ lo hi : K, near xi lo hi = lo ∨ near xi lo hi = hi := by
-    intro lo hi; unfold near; split
-    · right; rfl
-    · left; rfl
-  unfold nearS
-  simp only
-  rcases hnear (s[countLt s xi - 1]?.getD xi)
-      (s[if countLt s xi = s.length then countLt s xi - 1 else countLt s xi]?.getD xi) with h | h
-  · rw [h]; exact hmem _ hlo
-  · rw [h]; exact hmem _ hhi
-
-/-- **in target** for the decorator: every selected entry of the result is one of the samples -/
-theorem discrete_in_target (samples : List K) (idx : Option (List Int)) (x y : List K)
-    (hy : discrete samples idx x = .ok y) (k : Nat) (b : K)
-    (hk : selMask x.length idx k = true) (hb : y[k]? = some b) : b ∈ samples := by
-  unfold discrete at hy
-  split at hy
-  · cases hy
-  · split at hy
-    · cases hy
-    · rename_i hne
-      injection hy with hy; subst hy
-      have hs : sortBy true samples ≠ [] := by
-        intro h
-        have := (sortBy_perm true samples).length_eq
-        rw [h] at this
-        simp at hne this
-        exact hne (List.eq_nil_of_length_eq_zero this.symm)
-      have := maskMap_in_target (fun b => b ∈ sortBy true samples) (nearS (sortBy true samples))
-        (fun a => nearS_mem _ hs a) _ x k b hk hb
-      exact (sortBy_perm true samples).subset this
-
-/-- **frame** -/
-theorem discrete_frame (samples : List K) (idx : Option (List Int)) (x y : List K)
-    (hy : discrete samples idx x = .ok y) (k : Nat) (hk : selMask x.length idx k = false) : y[k]? = x[k]? := by
-  unfold discrete at hy
-  split at hy
-  · cases hy
-  · split at hy
-    · cases hy
-    · injection hy with hy; subst hy
-      exact maskMap_frame _ _ x k hk
-
-end discrete
-
-/-! ## `rounded(digits, index)` / `precision(digits, index)` -/
-
-section rounded
-variable {K : Type} [Field K] [LinearOrder K] [IsStrictOrderedRing K]
-
-/-- **in target** for `rounded(digits)` / `precision(digits)`: the result is on the grid `ℤ / 10^d`
-(`ℤ * 10^|d|` for negative digits); `p = 10^|d|` -/
-theorem roundDigits_on_grid (floor : K → K) (hf : IsFloor floor) (digits : Int) (p : K) (hp : p ≠ 0) (a : K) :
-    ∃ n : ℤ, roundDigits (rintHE floor) digits p a =
-      if digits = 0 then (n : K) else if 0 < digits then (n : K) / p else (n : K) * p := by
-  unfold roundDigits
-  split
-  · obtain ⟨n, hn, _⟩ := rintHE_nearest_integer floor hf a
-    exact ⟨n, hn⟩
-  · split
-    · obtain ⟨n, hn, _⟩ := rintHE_nearest_integer floor hf (a * p)
-      exact ⟨n, by rw [hn]⟩
-    · obtain ⟨n, hn, _⟩ := rintHE_nearest_integer floor hf (a / p)
-      exact ⟨n, by rw [hn]⟩
-
-/-- **idempotent**, hence numbers already on the grid are left alone -/
-theorem roundDigits_idem (floor : K → K) (hf : IsFloor floor) (digits : Int) (p : K) (hp : p ≠ 0) (a : K) :
-    roundDigits (rintHE floor) digits p (roundDigits (rintHE floor) digits p a) = roundDigits (rintHE floor) digits p a := by
-  unfold roundDigits
-  split
-  · exact rintHE_idem floor hf a
-  · split
-    · rw [div_mul_cancel₀ _ hp, rintHE_idem floor hf]
-    · rw [mul_div_assoc, div_self hp, mul_one, rintHE_idem floor hf]
-
-theorem rounded_idem (floor : K → K) (hf : IsFloor floor) (digits : Int) (p : K) (hp : p ≠ 0)
-    (idx : Option (List Int)) (x : List K) :
-    rounded (rintHE floor) digits p idx (rounded (rintHE floor) digits p idx x) = rounded (rintHE floor) digits p idx x := by
-  simp only [rounded, maskMap_length]
-  exact maskMap_idem _ (roundDigits_idem floor hf digits p hp) _ x
-
-theorem rounded_frame (rint : K → K) (digits : Int) (p : K) (idx : Option (List Int)) (x : List K) (k : Nat)
-    (hk : selMask x.length idx k = false) : (rounded rint digits p idx x)[k]? = x[k]? :=
-  maskMap_frame _ _ x k hk
-
-end rounded
-
-/-! ## `discrete`: samples are left alone -/
-
-section discrete2
-variable {K : Type} [Field K] [LinearOrder K] [IsStrictOrderedRing K]
-
-/-- **conforming input is left alone**: a value that IS a sample is mapped to itself -/
-theorem nearS_fix (s : List K) (hs : Ordered true s) (xi : K) (hmem : xi ∈ s) : nearS s xi = xi := by
-  obtain ⟨h1, h2⟩ := countLt_prefix s hs xi
-  obtain ⟨j, hj, hjx⟩ := List.getElem_of_mem hmem
-  have hcj : countLt s xi ≤ j := by
-    by_contra h
-    have := h1 j xi (by omega) (by rw [List.getElem?_eq_getElem hj, hjx])
-    exact lt_irrefl _ this
-  have hclt : countLt s xi < s.length := by omega
-  have hsc : s[countLt s xi]? = some xi := by
-    rw [List.getElem?_eq_getElem hclt]
-    congr 1
-    apply le_antisymm
-    · have := List.pairwise_iff_getElem.mp hs (countLt s xi) j hclt hj
-      rcases Nat.lt_or_ge (countLt s xi) j with h | h
-      · have := this h; simp at this; rw [hjx] at this; exact this
-      · have : countLt s xi = j := by omega
-        subst this; rw [hjx]
-    · exact h2 _ _ (le_refl _) (List.getElem?_eq_getElem hclt)
-  unfold nearS near
-  simp only
-  rw [if_neg (show ¬ countLt s xi = s.length by omega), hsc]
-  simp only [Option.getD_some, sub_self]
-  rcases Nat.eq_zero_or_pos (countLt s xi) with h0 | hpos
-  · rw [h0] at hsc ⊢
-    simp [hsc]
-  · have hlo : countLt s xi - 1 < s.length := by omega
-    have := h1 (countLt s xi - 1) _ (by omega) (List.getElem?_eq_getElem hlo)
-    rw [List.getElem?_eq_getElem hlo]
-    simp only [Option.getD_some]
-    rw [if_pos (by linarith)]
-
-theorem nearS_idem (s : List K) (hs : Ordered true s) (hne : s ≠ []) (xi : K) :
-    nearS s (nearS s xi) = nearS s xi := nearS_fix s hs _ (nearS_mem s hne xi)
-
-/-- **conforming input is left alone** for the decorator -/
-theorem discrete_fix_conform (samples : List K) (idx : Option (List Int)) (x : List K)
-    (hx : x ≠ []) (hs : samples ≠ [])
-    (hconf : ∀ k a, selMask x.length idx k = true → x[k]? = some a → a ∈ samples) :
-    discrete samples idx x = .ok x := by
-  unfold discrete
-  rw [if_neg (by simpa using hx), if_neg (by simpa using hs)]
-  congr 1
-  exact maskMap_fix_conform (fun a => a ∈ sortBy true samples) _
-    (fun a ha => nearS_fix _ (sortBy_ordered true samples) a ha) _ x
-    (fun k a hk ha => (sortBy_perm true samples).symm.subset (hconf k a hk ha))
-
-/-- **idempotent** -/
-theorem discrete_idem (samples : List K) (idx : Option (List Int)) (x y : List K)
-    (hy : discrete samples idx x = .ok y) : discrete samples idx y = .ok y := by
-  unfold discrete at hy ⊢
-  split at hy
-  · cases hy
-  · rename_i hx
-    split at hy
-    · cases hy
-    · rename_i hs
-      injection hy with hy; subst hy
-      have hne : sortBy true samples ≠ [] := by
-        intro h
-        have := (sortBy_perm true samples).length_eq
-        rw [h] at this
-        simp at hs this
-        exact hs (List.eq_nil_of_length_eq_zero this.symm)
-      rw [if_neg (by simpa [maskMap] using hx), if_neg hs, maskMap_length]
-      congr 1
-      exact maskMap_idem _ (nearS_idem _ (sortBy_ordered true samples) hne) _ x
-
-end discrete2
-
-/-! ## `unique(x, full)` / `impose_unique(full)` -/
-
-section uniq
-variable {R : Type} [BEq R] [LawfulBEq R]
-
-/-- **in target** for `unique` / `impose_unique`: given the shuffled list of unused values (`new`: no repeats,
-disjoint from `x` - the contract of `list(set(full) - set(x))` + `shuffle`), the result has pairwise-distinct
-entries, each an entry of `x` or one of the unused values -/
-theorem unique_distinct (full x new y : List R) (hy : unique full x new = .ok y) (hnd : new.Nodup)
-    (hnew : ∀ v ∈ new, v ∉ x) : y.Nodup ∧ ∀ b ∈ y, b ∈ x ∨ b ∈ new := by
-  unfold unique at hy
-  split at hy
-  · cases hy
-  · split at hy
-    · cases hy
-    · obtain ⟨h1, _, h3⟩ := uniqueGo_spec x [] new y hy hnd (fun v hv => ⟨by simp, hnew v hv⟩)
-      exact ⟨h1, h3⟩
-
-end uniq
-
-/-! ## `impose_bounds` with SEVERAL intervals, and `sorting` / `monotonic` with an index selection -/
-
-section multi
-variable {K : Type} [Field K] [LinearOrder K] [IsStrictOrderedRing K]
-
-theorem inAny_iff (ivs : List (K × K)) (v : K) : inAny ivs v = true ↔ ∃ iv ∈ ivs, iv.1 ≤ v ∧ v ≤ iv.2 := by
-  simp [inAny, List.any_eq_true]
-
-/-- **in target**, any number of intervals: whatever `impose_bounds(clip=True, nearest=True)` does to an entry, the
-result lies inside one of the given intervals (each with `lo ≤ hi`) -/
-theorem boundedAt_in_target (ivs : List (K × K)) (hwf : ∀ iv ∈ ivs, iv.1 ≤ iv.2) (hne : ivs ≠ []) (a : K) :
-    inAny ivs (boundedAt ivs a) = true := by
-  unfold boundedAt
-  split
-  · assumption
-  · rename_i hout
-    have hout' : ∀ iv ∈ ivs, ¬ (iv.1 ≤ a ∧ a ≤ iv.2) := by
-      intro iv hiv h
-      exact hout ((inAny_iff ivs a).mpr ⟨iv, hiv, h⟩)
-    obtain ⟨bL, hbL, hminL, hfirstL⟩ := argminFirst_spec ((ivs.map (·.1)).map (fun b => absR (a - b))) (by simpa using hne)
-    obtain ⟨bH, hbH, hminH, hfirstH⟩ := argminFirst_spec ((ivs.map (·.2)).map (fun b => absR (a - b))) (by simpa using hne)
-    unfold clipNear
-    simp only
-    generalize argminFirst ((ivs.map (·.1)).map (fun b => absR (a - b))) = iL at *
-    generalize argminFirst ((ivs.map (·.2)).map (fun b => absR (a - b))) = iH at *
-    simp only [List.getElem?_map] at hbL hbH hminL hminH hfirstL hfirstH ⊢
-    cases hC : ivs[iL]? with
-    | none => simp [hC] at hbL
-    | some C =>
-      cases hD : ivs[iH]? with
-      | none => simp [hD] at hbH
-      | some D =>
-        simp only [hC, hD, Option.map_some, Option.some.injEq, Option.getD_some] at hbL hbH ⊢
-        have hCm : C ∈ ivs := List.mem_of_getElem? hC
-        have hDm : D ∈ ivs := List.mem_of_getElem? hD
-        have hCw := hwf C hCm
-        have hDw := hwf D hDm
-        have inC : inAny ivs C.1 = true := (inAny_iff ivs _).mpr ⟨C, hCm, le_refl _, hCw⟩
-        have inD : inAny ivs D.2 = true := (inAny_iff ivs _).mpr ⟨D, hDm, hDw, le_refl _⟩
-        unfold clipAt
-        simp only
-        by_cases h1 : a ≤ C.1
-        · rw [if_pos h1]
-          split
-          · exact inD
-          · exact inC
-        · rw [if_neg h1]
-          by_cases h2 : D.2 ≤ a
-          · rw [if_pos h2]; exact inD
-          · exfalso
-            have h1' : C.1 < a := not_le.mp h1
-            have h2' : a < D.2 := not_le.mp h2
-            have hC2 : C.2 < a := by
-              by_contra h; exact hout' C hCm ⟨le_of_lt h1', not_lt.mp h⟩
-            have hD1 : a < D.1 := by
-              by_contra h; exact hout' D hDm ⟨not_lt.mp h, le_of_lt h2'⟩
-            -- distances
-            have e1 := hminL iH (absR (a - D.1)) (by simp [hD])
-            have e2 := hminH iL (absR (a - C.2)) (by simp [hC])
-            rw [← hbL] at e1; rw [← hbH] at e2
-            rw [absR_eq_abs, absR_eq_abs] at e1 e2
-            rw [abs_of_pos (by linarith), abs_of_neg (by linarith)] at e1
-            rw [abs_of_neg (by linarith), abs_of_pos (by linarith)] at e2
-            -- all four distances coincide
-            rcases Nat.lt_trichotomy iL iH with hlt | heq | hgt
-            · have := hfirstH iL (absR (a - C.2)) hlt (by simp [hC])
-              rw [← hbH, absR_eq_abs, absR_eq_abs, abs_of_neg (by linarith), abs_of_pos (by linarith)] at this
-              linarith
-            · subst heq
-              rw [hC] at hD; injection hD with hD; subst hD
-              linarith
-            · have := hfirstL iH (absR (a - D.1)) hgt (by simp [hD])
-              rw [← hbL, absR_eq_abs, absR_eq_abs, abs_of_pos (by linarith), abs_of_neg (by linarith)] at this
-              linarith
-
-/-- **in target** for the decorator, any number of intervals -/
-theorem bounded_in_target_multi (ivs : List (K × K)) (hwf : ∀ iv ∈ ivs, iv.1 ≤ iv.2) (hne : ivs ≠ [])
-    (idx : Option (List Int)) (x : List K) (k : Nat) (b : K)
-    (hk : selPos idx k = true) (hb : (bounded ivs idx x)[k]? = some b) : ∃ iv ∈ ivs, iv.1 ≤ b ∧ b ≤ iv.2 := by
-  unfold bounded at hb
-  rw [if_neg (by simpa using hne)] at hb
-  exact (inAny_iff ivs b).mp (maskMap_in_target (fun b => inAny ivs b = true) (boundedAt ivs)
-    (boundedAt_in_target ivs hwf hne) (selPos idx) x k b hk hb)
-
-/-- **idempotent**, any number of intervals -/
-theorem bounded_idem_multi (ivs : List (K × K)) (hwf : ∀ iv ∈ ivs, iv.1 ≤ iv.2)
-    (idx : Option (List Int)) (x : List K) : bounded ivs idx (bounded ivs idx x) = bounded ivs idx x := by
-  unfold bounded
-  split
-  · rfl
-  · rename_i hne
-    exact maskMap_idem _ (fun a => by
-      have := boundedAt_in_target ivs hwf (by simpa using hne) a
-      generalize boundedAt ivs a = b at this ⊢
-      simp [boundedAt, this]) _ x
-
-end multi
-
-section indexedsel
-variable {K : Type} [LinearOrder K]
-
-/-- **frame** for `sorting(index=...)` / `monotonic(index=...)`: entries whose position is not addressed by the index
-are untouched -/
-theorem indexed_frame (f : List K → List K) (is : List Int) (x y : List K)
-    (hy : indexed f (some is) x = .ok y) (k : Nat)
-    (hk : ∀ ks, wrapAll x.length is = some ks → k ∉ ks) : y[k]? = x[k]? := by
-  unfold indexed at hy
-  simp only at hy
-  split at hy
-  · injection hy with hy; rw [hy]
-  · split at hy
-    · injection hy with hy; rw [hy]
-    · split at hy
-      · cases hy
-      · split at hy
-        · cases hy
-        · rename_i ks hks
-          injection hy with hy; subst hy
-          apply scatter_not_mem
-          intro hmem
-          exact hk ks hks ((sortBy_perm true ks).subset hmem)
-
-end indexedsel
-
-/-- `sorting(index=is)`: unaddressed entries are untouched -/
-theorem sorting_frame {K : Type} [LinearOrder K] (asc : Bool) (is : List Int) (x y : List K)
-    (hy : sorting asc (some is) x = .ok y) (k : Nat)
-    (hk : ∀ ks, wrapAll x.length is = some ks → k ∉ ks) : y[k]? = x[k]? := indexed_frame _ is x y hy k hk
-
-/-- `monotonic(index=is)`: unaddressed entries are untouched -/
-theorem monotonic_frame {K : Type} [LinearOrder K] (asc : Bool) (is : List Int) (x y : List K)
-    (hy : monotonic asc (some is) x = .ok y) (k : Nat)
-    (hk : ∀ ks, wrapAll x.length is = some ks → k ∉ ks) : y[k]? = x[k]? := indexed_frame _ is x y hy k hk
-
-/-! ## non-vacuity: the hypotheses are met by concrete, non-trivial instances
-
-Listed theorems of the DESIGN that are NOT proved here (model + correspondence + monitor only):
-`impose_as` tied relation in general (only the three closed-term witnesses), `synchronized` tied/frame for
-arbitrary masks (only the ndarray witness), `impose_at` with a list target (scalar target proved), `masked`
-insertion, `with_spread` / `with_variance` / `with_std` targets, `discrete` NEAREST member (membership and
-fix-conform proved), round-half-EVEN tie rule (nearest-integer proved), in-target for the SELECTED subsequence of
-`sorting` / `monotonic` with an index (frame proved; whole-vector case proved), `bounded(clip=False)` and
-`bounded(nearest=False)` (random draws; correspondence with recorded draws only). -/
-
-/-- a floor on ℚ satisfies the `IsFloor` contract -/
-example : IsFloor (fun q : ℚ => ((Int.floor q : ℤ) : ℚ)) := fun a =>
-  ⟨Int.floor a, rfl, Int.floor_le a, Int.lt_floor_add_one a⟩
-
-/-- two intervals: `6` goes to the end `5` (nearest high), `11` to `10`, `-4` to `0`; `1` is left alone -/
-example : bounded [((0 : Int), 5), (7, 10)] none [1, -4, 11, 6] = [1, 0, 10, 5] := by decide
-
-example : sorting true none [(3 : Int), 1, 2] = .ok [1, 2, 3] := by decide
-example : monotonic false none [(3 : Int), 1, 2, 0] = .ok [3, 1, 1, 0] := by decide
-example : imposeAt [1, 3, 7, -1] (.inl (9 : Int)) [0, 0, 0, 0, 0] = .ok [0, 9, 0, 9, 9] := by decide
-example : partialMask [(0, (10 : Int)), (3, -1), (-1, 5)] [0, 1, 2, 3, 4] = [10, 1, 2, -1, 5] := by decide
-example : selMask 6 (some [0, 6]) 0 = false ∧ selMask 6 (some [0, -1]) 5 = true := by decide
-example : withMean List.sum Nat.cast (0 : ℚ) 0 5 [1, 2, 3, 4] = .ok [7/2, 9/2, 11/2, 13/2] := by
-  simp only [withMean, close, meanL, imposeMean, absR]
-  norm_num
-example : unique [(1 : Int), 2, 3, 4, 5] [1, 2, 1, 2] [5, 3, 4] = .ok [1, 2, 4, 3] := by decide
-
-end MysticVerif.C16
+import MysticVerif.Props.C16.Core
+import MysticVerif.Props.C16.Insert
+import MysticVerif.Props.C16.Ties
+import MysticVerif.Props.C16.Stats
+import MysticVerif.Props.C16.Select
